@@ -200,6 +200,37 @@ type execOpts struct {
 	wire     []string
 	httpAuth string
 	probe    bool // after the command, check whether the connection may read data
+	pre      *preConn // run on this pre-existing connection instead of dialling
+}
+
+// preConn is a connection that was opened, and used, before the cell runs.
+type preConn struct {
+	nc     net.Conn
+	tee    *teeConn
+	br     *bufio.Reader
+	primed string // what it ran when it was opened
+}
+
+func dialPre(addr string) (*preConn, error) {
+	d := net.Dialer{Timeout: 10 * time.Second}
+	nc, err := d.Dial("tcp", addr)
+	if err != nil {
+		return nil, err
+	}
+	if tc, ok := nc.(*net.TCPConn); ok {
+		tc.SetNoDelay(true)
+	}
+	tee := &teeConn{Conn: nc, buf: &bytes.Buffer{}}
+	return &preConn{nc: nc, tee: tee, br: bufio.NewReaderSize(tee, 1<<16)}, nil
+}
+
+func (p *preConn) do(args ...string) (t38.Value, error) {
+	p.nc.SetWriteDeadline(time.Now().Add(replyTimeout))
+	if _, err := p.nc.Write(t38.EncodeCmd(args...)); err != nil {
+		return t38.Value{}, err
+	}
+	p.nc.SetReadDeadline(time.Now().Add(replyTimeout))
+	return t38.ReadValue(p.br)
 }
 
 var replyTimeout = 30 * time.Second
@@ -209,22 +240,31 @@ var replyTimeout = 30 * time.Second
 // connection kind, live ones included).
 func execCell(o execOpts) (r result) {
 	t38.JournalNote("c15 " + string(o.v) + " " + o.addr + " " + t38.CmdString(o.wire))
-	var d net.Dialer
-	d.Timeout = 10 * time.Second
-	if o.fromIP != "" {
-		d.LocalAddr = &net.TCPAddr{IP: net.ParseIP(o.fromIP)}
-	}
-	nc, err := d.Dial("tcp", o.addr)
-	if err != nil {
-		r.DialErr = err.Error()
-		return
+	var nc net.Conn
+	var tee *teeConn
+	var br *bufio.Reader
+	if o.pre != nil {
+		// a connection that already exists (and already talked to the server)
+		nc, tee, br = o.pre.nc, o.pre.tee, o.pre.br
+	} else {
+		var d net.Dialer
+		d.Timeout = 10 * time.Second
+		if o.fromIP != "" {
+			d.LocalAddr = &net.TCPAddr{IP: net.ParseIP(o.fromIP)}
+		}
+		c, err := d.Dial("tcp", o.addr)
+		if err != nil {
+			r.DialErr = err.Error()
+			return
+		}
+		nc = c
+		if tc, ok := nc.(*net.TCPConn); ok {
+			tc.SetNoDelay(true)
+		}
+		tee = &teeConn{Conn: nc, buf: &bytes.Buffer{}}
+		br = bufio.NewReaderSize(tee, 1<<16)
 	}
 	defer nc.Close()
-	if tc, ok := nc.(*net.TCPConn); ok {
-		tc.SetNoDelay(true)
-	}
-	tee := &teeConn{Conn: nc, buf: &bytes.Buffer{}}
-	br := bufio.NewReaderSize(tee, 1<<16)
 	consumed := func() int { return tee.buf.Len() - br.Buffered() }
 	closeWrite := func() {
 		if tc, ok := nc.(*net.TCPConn); ok {
